@@ -232,6 +232,16 @@ def check(case):
             for c in range(n_cov):
                 want_names.append('%s %s' % (bn[p * n_dim + d], cn[c]))
         case.equal(names, want_names, 'names identify (parameter, dimension, covariate)')
+        # the optional flag concerns the dimension names only: every coefficient still names its covariate
+        nx = list(m.get_parameter_names(exclude_dim_names=True))
+        case.equal(len(nx), len(want_names), 'number of names with exclude_dim_names=True')
+        case.equal(nx[:len(bn)], list(und.get_parameter_names(exclude_dim_names=True)),
+                   'names of the underlying parameters with exclude_dim_names=True')
+        for j in range(len(sel)):
+            for c in range(n_cov):
+                nm = nx[len(bn) + j * n_cov + c]
+                case.true(str(nm).endswith(str(cn[c])), 'coefficient %d of covariate %r is called %r with '
+                          'exclude_dim_names=True (all names: %r)' % (j, cn[c], nm, nx), kind='names')
         case.equal(tuple(int(v) for v in m.n_hierarchical_parameters(n_ids)),
                    (int(und.n_hierarchical_parameters(n_ids)[0]), nb + len(sel) * n_cov), 'n_hierarchical_parameters')
 
@@ -299,6 +309,22 @@ def check(case):
                 for u, v, nm in zip(sa, sb, ('score', 'dpsi', 'dtheta')):
                     case.close(np.asarray(u, dtype=float), np.asarray(v, dtype=float), rtol=1e-12,
                                what='%s of compute_sensitivities with the parameters given as %s' % (nm, label))
+
+    # one-dimensional models: the individual values given as a plain vector of length n_ids (one entry per individual)
+    if n_dim == 1 and not any(special):
+        with case.clause('observations_as_vector'):
+            lb = m.compute_log_likelihood(theta.copy(), x.copy(), cov.copy())
+            la = m.compute_log_likelihood(theta.copy(), x[:, 0].copy(), cov.copy())
+            case.close(la, lb, rtol=1e-12, what='log-likelihood with the individual values given as a vector of length n_ids '
+                                               'vs as an (n_ids, 1) matrix')
+            sa = m.compute_sensitivities(theta.copy(), x[:, 0].copy(), cov.copy())
+            sb = m.compute_sensitivities(theta.copy(), x.copy(), cov.copy())
+            case.close(sa[0], sb[0], rtol=1e-12, what='score of compute_sensitivities with the individual values given as a '
+                                                       'vector')
+            case.close(np.asarray(sa[2], dtype=float), np.asarray(sb[2], dtype=float), rtol=1e-12,
+                       what='dtheta with the individual values given as a vector')
+            pa = np.asarray(m.compute_individual_parameters(theta.copy(), x[:, 0].copy(), cov.copy()), dtype=float)
+            case.close(pa.reshape(-1), got.reshape(-1), rtol=1e-12, what='individual parameters with eta given as a vector')
 
     def und_ll(i, xi):
         """Underlying model for individual i alone with parameters vartheta_i."""
